@@ -151,6 +151,37 @@ def run(ck: Check):
                                              f"the property requires {ep!r} {enc_bools(er)} len {k - (hi - lo)} (source now {t.parts!r})",
                                              {"op": "rmslice", "class": cls.__name__, "parts": [p.hex() for p in parts],
                                               "reducible": red, "a": a, "b": b})
+    # bounds far outside any range - beyond the machine word, powers of ten - are clamped like any other out-of-range value
+    import sys as _sys
+    FAR = [_sys.maxsize - 1, _sys.maxsize, _sys.maxsize + 1, 2 ** 63, 2 ** 64 + 5, 10 ** 30, 2 ** 31, 2 ** 32 + 1]
+    for cls in classes:
+        for n in (1, 3, 4):
+            for red in itertools.product([False, True], repeat=n):
+                red = list(red)
+                parts = [bytes([97 + i]) for i in range(n)]
+                k = sum(red)
+                bounds = FAR[:: (2 if ck.tier == "quick" else 1)] + [-x for x in FAR[::3]] + [0, 1, -1]
+                for a in bounds:
+                    for b in bounds:
+                        lo, hi = clampi(k, a), clampi(k, b)
+                        if lo > hi or (abs(a) < 5 and abs(b) < 5):
+                            continue
+                        t = cls()
+                        t.before, t.after, t.parts, t.reducible = b"<", b">", list(parts), list(red)
+                        cp = t.copy()
+                        ck.count("far-bounds")
+                        ck.nontrivial(("far", cls.__name__, tuple(red), a, b))
+                        try:
+                            cp.rmslice(a, b)
+                            got = (cp.parts, cp.reducible, len(cp))
+                        except Exception as e:  # pylint: disable=broad-except
+                            got = type(e).__name__
+                        ep, er = spec_rm(parts, red, lo, hi)
+                        if got != (ep, er, k - (hi - lo)):
+                            ck.violation(f"{cls.__name__}: rmslice({a},{b}) on flags {enc_bools(red)} gave {got!r}; out-of-range bounds "
+                                         f"are clamped: expected {ep!r} {enc_bools(er)} len {k - (hi - lo)}",
+                                         {"op": "rmslice", "class": cls.__name__, "reducible": red, "a": str(a), "b": str(b)})
+                        # (direct oracle only: the driver of the extracted model reads machine-size integers; the theorem is over Z)
     # len() queried, then the lists edited IN PLACE (append / flag flip / pop), then rmslice: no stale state
     r2 = rng("c07-inplace")
     for _ in range(300 if ck.tier == "quick" else 3000):
